@@ -681,8 +681,8 @@ class Interp:
         if len(args) != len(params):
             raise Fail("arity", "%d vs %d" % (len(args), len(params)))
         new = dict(closure)
-        # PIN: with a repeated parameter name the first argument wins (arguments are bound last to
-        # first); generators do not repeat names.
+        # A repeated parameter name is refused by the parser (since a9ca53d; C10 checks that); generators
+        # do not repeat names, so the binding order below is not observable.
         for p, a in reversed(list(zip(params, args))):
             if p in RESERVED:
                 raise Fail("reserved", p)
